@@ -275,6 +275,52 @@ def run(pid, tier, replay=None):
         chk.evaluations += 1
     if bad is not None:
         chk.violation("C07:vlq_value_changed_by_encode_then_decode", {"value": bad})
+    # objects obtained from the block store: blocks with multi-input / multi-output transactions (referenced output indexes ascending,
+    # descending and equal) are written, flushed and read back through a fresh connection; the ids they carry must be the double
+    # SHA-256 of the canonical encoding of what was read, and equal the ids of the same content decoded from bytes
+    from harness import store_drv, ledger_drv
+    from checks.ledger import RandomTree
+    from checks import store as storechk
+    cfg_s = sk.Cfg(**storechk.MODEL_CFG)
+    sk.apply_cfg(cfg_s)
+    nstored = 0
+    try:
+        trees = []
+        for name_, descs in storechk.universes().items():
+            w_, g_, blocks_ = storechk.build(cfg_s, sk.Keys(3), descs)
+            trees.append((w_, g_, [blocks_[i] for i in sorted(blocks_) if i != 0]))
+        for i in range(2 if quick else 12):
+            w_ = sk.World(cfg_s, sk.Keys(3), tag=b"ws%d" % i)
+            rec_ = ledger_drv.Recorder(w_, 1, full=False, snapshots=False)
+            g_ = w_.make_genesis()
+            rec_.start(g_)
+            rt_ = RandomTree(w_, rec_, rng, p_mut=0.0)
+            for _ in range(12):
+                rt_.step()
+            trees.append((w_, g_, [w_.by_abs[a] for a in rt_.stored[1:]]))
+        for (w_, g_, order_) in trees:
+            run_ = store_drv.StoreRun(w_, g_)
+            try:
+                for b_ in order_:
+                    run_.buffer(b_)
+                run_.flush()
+                for b_ in run_.read_back():
+                    for (t_, o_) in [("Block", b_)] + [("Transaction", x) for x in b_.transactions]:
+                        canon = indep.enc_block(o_) if t_ == "Block" else indep.enc_tx(o_)
+                        try:
+                            same = o_.serialize() == canon
+                        except Exception:
+                            same = False
+                        fresh = real_decode(t_, canon, CLS)
+                        events.append({"t": t_, "b": list(canon), "kind": "stored", "dec": True, "consumed": len(canon), "reenc_equal": same,
+                                       "id_equal": ids_ok(o_) and bool(fresh and fresh[0] and fresh[2].hash() == o_.hash()),
+                                       "roundtrip": True, "name": "from_store"})
+                        nstored += 1
+            finally:
+                run_.close()
+    finally:
+        sk.restore_cfg()
+    chk.extra["objects_read_from_store"] = nstored
     # random bytes
     for _ in range(200 if quick else 3000):
         t = rng.choice(["Transaction", "Block", "BlockHeader", "Input", "Output", "Signature", "Frame"])
